@@ -531,107 +531,8 @@ func TestC07aAtomicity(t *testing.T) {
 					cse.Class("shape=failing-and-valid-on-one-pool")
 				}
 			}
-			// byte-identical duplicates inside one block are excluded (mempool de-duplicates by hash)
-			seen := map[string]bool{}
-			var txs [][]byte
-			var labels []string
-			var kept []item
-			for _, it := range L {
-				if seen[string(it.bz)] {
-					continue
-				}
-				seen[string(it.bz)] = true
-				kept = append(kept, it)
-				txs = append(txs, it.bz)
-			}
-			L = kept
-			// ---- proposer path on the chain, replica path on a fork of the same pre-state
-			fork, err := c.Fork()
-			if err != nil {
-				rt.Fatalf("fork: %v", err)
-			}
-			tm := c.Tick()
-			out := c.Use().Propose(cs.BlockSpec{Txs: txs, Time: tm})
-			if out.Err != nil {
-				fork.Close()
-				for _, it := range L {
-					labels = append(labels, it.label)
-				}
-				rt.Fatalf("VIOLATION C07: proposer-mode ApplyBlock failed AS A WHOLE (%s) for the list [%s]: one transaction must never poison the block", errText(out.Err), strings.Join(labels, " | "))
-			}
-			inc := map[string]bool{}
-			failedWhy := map[string]string{}
-			for _, tx := range out.Results.Txs {
-				inc[string(tx)] = true
-			}
-			for _, f := range out.Results.Failed {
-				failedWhy[string(f.GetBytes())] = errText(f.Error)
-			}
-			// I u F = L, disjoint, order preserved
-			var wantI, wantF [][]byte
-			for i, it := range L {
-				_, isF := failedWhy[string(it.bz)]
-				if inc[string(it.bz)] == isF {
-					fork.Close()
-					rt.Fatalf("VIOLATION C07: transaction [%s] is in included=%v and failed=%v (must be in exactly one)", it.label, inc[string(it.bz)], isF)
-				}
-				verdict := "included"
-				if isF {
-					wantF = append(wantF, it.bz)
-					verdict = "FAILED: " + failedWhy[string(it.bz)]
-				} else {
-					wantI = append(wantI, it.bz)
-				}
-				labels = append(labels, it.label+" => "+verdict)
-				cse.Class(it.class)
-				cse.ClassIf(it.intent == "valid" && isF, "note=intended-valid-but-failed")
-				cse.ClassIf(it.intent != "valid" && !isF, "note=intended-failing-but-included")
-				if it.intent == "fails-late" && isF && i > 0 && i < len(L)-1 {
-					nontriv = true
-					cse.Class("nontrivial=failed-after-fee-in-the-middle")
-				}
-			}
-			cse.Desc("h%d[%s]", out.Height, strings.Join(labels, " | "))
-			var gotF [][]byte
-			for _, f := range out.Results.Failed {
-				gotF = append(gotF, f.GetBytes())
-			}
-			if !equalLists(out.Results.Txs, wantI) || !equalLists(gotF, wantF) || len(out.Results.Txs)+len(out.Results.Failed) != len(L) {
-				fork.Close()
-				rt.Fatalf("VIOLATION C07: included (%d) and failed (%d) lists are not an order-preserving partition of the %d submitted transactions", len(out.Results.Txs), len(out.Results.Failed), len(L))
-			}
-			propScan, _ := c.Scan() // working state of the proposer after ApplyBlock
-			// replica: exactly the included transactions, no failure tolerated
-			blk := &lib.Block{BlockHeader: out.Header, Transactions: append([][]byte(nil), out.Results.Txs...)}
-			hdr2, res2, e2 := fork.Use().FSM.ApplyBlock(context.Background(), blk, false)
-			if e2 != nil {
-				fork.Close()
-				rt.Fatalf("VIOLATION C07: replica-mode ApplyBlock of exactly the included transactions FAILED: %s; block [%s]", errText(e2), strings.Join(labels, " | "))
-			}
-			repScan, _ := fork.Scan()
-			fork.FSM.Reset()
-			fork.Close()
-			if len(res2.Failed) != 0 || len(res2.Txs) != len(out.Results.Txs) {
-				rt.Fatalf("VIOLATION C07: replica executing the included transactions reports %d failed / %d included (proposer included %d)", len(res2.Failed), len(res2.Txs), len(out.Results.Txs))
-			}
-			if d := cs.DiffScans(propScan, repScan); d != "" {
-				rt.Fatalf("VIOLATION C07: state after the proposer's block (with %d failing transactions) differs from the state after executing only the %d included ones: %s\n   block [%s]", len(out.Results.Failed), len(out.Results.Txs), d, strings.Join(labels, " | "))
-			}
-			if !bytes.Equal(hdr2.Hash, out.Header.Hash) {
-				rt.Fatalf("VIOLATION C07: header differs although the state scan is equal: proposer %x replica %x (state root %x / %x, tx root %x / %x)", out.Header.Hash, hdr2.Hash, out.Header.StateRoot, hdr2.StateRoot, out.Header.TransactionRoot, hdr2.TransactionRoot)
-			}
-			if !equalLists(marshalAll(out.Results.Events), marshalAll(res2.Events)) {
-				rt.Fatalf("VIOLATION C07: events differ: proposer %d events, replica %d", len(out.Results.Events), len(res2.Events))
-			}
-			if !equalLists(out.Results.ResultsBz, res2.ResultsBz) {
-				rt.Fatalf("VIOLATION C07: transaction results differ between proposer and replica")
-			}
-			if err := c.Use().Commit(out); err != nil {
-				rt.Fatalf("harness: commit: %v", err)
-			}
-			after, _ := c.Scan()
-			if d := cs.DiffScans(propScan, after); d != "" {
-				rt.Fatalf("VIOLATION C07: committed state differs from the working state after ApplyBlock: %s", d)
+			if runAndCompare(rt, cse, c, L) {
+				nontriv = true
 			}
 		}
 		cse.Done(nontriv)
@@ -648,4 +549,112 @@ func equalLists(a, b [][]byte) bool {
 		}
 	}
 	return true
+}
+
+// runAndCompare is the oracle: proposer-mode ApplyBlock on L on chain c (then committed) versus replica-mode ApplyBlock of exactly
+// the included transactions on a fork of the same pre-state. It reports whether a late failure sat in the middle of L.
+func runAndCompare(rt *rapid.T, cse *ev.Case, c *cs.Chain, L []item) (nontriv bool) {
+	// byte-identical duplicates inside one block are excluded (mempool de-duplicates by hash)
+	seen := map[string]bool{}
+	var txs [][]byte
+	var labels []string
+	var kept []item
+	for _, it := range L {
+		if seen[string(it.bz)] {
+			continue
+		}
+		seen[string(it.bz)] = true
+		kept = append(kept, it)
+		txs = append(txs, it.bz)
+	}
+	L = kept
+	// ---- proposer path on the chain, replica path on a fork of the same pre-state
+	fork, err := c.Fork()
+	if err != nil {
+		rt.Fatalf("fork: %v", err)
+	}
+	tm := c.Tick()
+	out := c.Use().Propose(cs.BlockSpec{Txs: txs, Time: tm})
+	if out.Err != nil {
+		fork.Close()
+		for _, it := range L {
+			labels = append(labels, it.label)
+		}
+		rt.Fatalf("VIOLATION C07: proposer-mode ApplyBlock failed AS A WHOLE (%s) for the list [%s]: one transaction must never poison the block", errText(out.Err), strings.Join(labels, " | "))
+	}
+	inc := map[string]bool{}
+	failedWhy := map[string]string{}
+	for _, tx := range out.Results.Txs {
+		inc[string(tx)] = true
+	}
+	for _, f := range out.Results.Failed {
+		failedWhy[string(f.GetBytes())] = errText(f.Error)
+	}
+	// I u F = L, disjoint, order preserved
+	var wantI, wantF [][]byte
+	for i, it := range L {
+		_, isF := failedWhy[string(it.bz)]
+		if inc[string(it.bz)] == isF {
+			fork.Close()
+			rt.Fatalf("VIOLATION C07: transaction [%s] is in included=%v and failed=%v (must be in exactly one)", it.label, inc[string(it.bz)], isF)
+		}
+		verdict := "included"
+		if isF {
+			wantF = append(wantF, it.bz)
+			verdict = "FAILED: " + failedWhy[string(it.bz)]
+		} else {
+			wantI = append(wantI, it.bz)
+		}
+		labels = append(labels, it.label+" => "+verdict)
+		cse.Class(it.class)
+		cse.ClassIf(it.intent == "valid" && isF, "note=intended-valid-but-failed")
+		cse.ClassIf(it.intent != "valid" && !isF, "note=intended-failing-but-included")
+		if it.intent == "fails-late" && isF && i > 0 && i < len(L)-1 {
+			nontriv = true
+			cse.Class("nontrivial=failed-after-fee-in-the-middle")
+		}
+	}
+	cse.Desc("h%d[%s]", out.Height, strings.Join(labels, " | "))
+	var gotF [][]byte
+	for _, f := range out.Results.Failed {
+		gotF = append(gotF, f.GetBytes())
+	}
+	if !equalLists(out.Results.Txs, wantI) || !equalLists(gotF, wantF) || len(out.Results.Txs)+len(out.Results.Failed) != len(L) {
+		fork.Close()
+		rt.Fatalf("VIOLATION C07: included (%d) and failed (%d) lists are not an order-preserving partition of the %d submitted transactions", len(out.Results.Txs), len(out.Results.Failed), len(L))
+	}
+	propScan, _ := c.Scan() // working state of the proposer after ApplyBlock
+	// replica: exactly the included transactions, no failure tolerated
+	blk := &lib.Block{BlockHeader: out.Header, Transactions: append([][]byte(nil), out.Results.Txs...)}
+	hdr2, res2, e2 := fork.Use().FSM.ApplyBlock(context.Background(), blk, false)
+	if e2 != nil {
+		fork.Close()
+		rt.Fatalf("VIOLATION C07: replica-mode ApplyBlock of exactly the included transactions FAILED: %s; block [%s]", errText(e2), strings.Join(labels, " | "))
+	}
+	repScan, _ := fork.Scan()
+	fork.FSM.Reset()
+	fork.Close()
+	if len(res2.Failed) != 0 || len(res2.Txs) != len(out.Results.Txs) {
+		rt.Fatalf("VIOLATION C07: replica executing the included transactions reports %d failed / %d included (proposer included %d)", len(res2.Failed), len(res2.Txs), len(out.Results.Txs))
+	}
+	if d := cs.DiffScans(propScan, repScan); d != "" {
+		rt.Fatalf("VIOLATION C07: state after the proposer's block (with %d failing transactions) differs from the state after executing only the %d included ones: %s\n   block [%s]", len(out.Results.Failed), len(out.Results.Txs), d, strings.Join(labels, " | "))
+	}
+	if !bytes.Equal(hdr2.Hash, out.Header.Hash) {
+		rt.Fatalf("VIOLATION C07: header differs although the state scan is equal: proposer %x replica %x (state root %x / %x, tx root %x / %x)", out.Header.Hash, hdr2.Hash, out.Header.StateRoot, hdr2.StateRoot, out.Header.TransactionRoot, hdr2.TransactionRoot)
+	}
+	if !equalLists(marshalAll(out.Results.Events), marshalAll(res2.Events)) {
+		rt.Fatalf("VIOLATION C07: events differ: proposer %d events, replica %d", len(out.Results.Events), len(res2.Events))
+	}
+	if !equalLists(out.Results.ResultsBz, res2.ResultsBz) {
+		rt.Fatalf("VIOLATION C07: transaction results differ between proposer and replica")
+	}
+	if err := c.Use().Commit(out); err != nil {
+		rt.Fatalf("harness: commit: %v", err)
+	}
+	after, _ := c.Scan()
+	if d := cs.DiffScans(propScan, after); d != "" {
+		rt.Fatalf("VIOLATION C07: committed state differs from the working state after ApplyBlock: %s", d)
+	}
+	return nontriv
 }
